@@ -574,6 +574,34 @@ def root_name(e: ast.AST) -> str | None:
     return e.id if isinstance(e, ast.Name) else None
 
 
+def _depends_on_respect(ctx: Ctx, fi: FuncInfo, expr: ast.AST, node: Node, depth: int) -> bool:
+    """Is the value (data and control) derived from config.respect_gitignore - in this function, or, when it arrives as a
+    parameter, at every call site of the function?"""
+    from ..dataflow import bind_call
+    from .common import callers_index
+
+    prog = ctx.prog
+    sl = prog.slice(fi, expr, node, control=True)
+    if any(a.endswith("respect_gitignore") for a in sl.attrs()):
+        return True
+    params = [p for p in sl.params() if not (fi.cls is not None and fi.params and p == fi.params[0])]
+    if not params or depth > 2:
+        return False
+    sites = 0
+    for cq in callers_index(prog).get(fi.qual, ()):
+        caller = prog.repo.functions.get(cq)
+        if caller is None or isinstance(caller.node, ast.Lambda):
+            continue
+        for cn, call in prog.flow(caller).all_calls():
+            if prog.resolve_call(caller, call) != [fi]:
+                continue
+            sites += 1
+            b = bind_call(fi, call)
+            if not any(p in b and _depends_on_respect(ctx, caller, b[p], cn, depth + 1) for p in params):
+                return False
+    return sites > 0
+
+
 # -------------------------------------------------------------------------------------------- C18
 def check_gitignore(ctx: Ctx) -> None:
     repo, prog = ctx.repo, ctx.prog
@@ -604,8 +632,7 @@ def check_gitignore(ctx: Ctx) -> None:
         site = f"{RESOLVER} [{'directory walk' if fi is not dire else 'directory pruning'}]"
         # G1 every use depends on respect_gitignore
         recv = _effective_receiver(c)
-        sl = prog.slice(fi, recv, n, control=True)
-        g1 = any(a.endswith("respect_gitignore") for a in sl.attrs())
+        g1 = _depends_on_respect(ctx, fi, recv, n, 0)
         ctx.ob("R-GITIGNORE-G1", f"{site} :: gitignore use ({tag}) depends on respect_gitignore", g1,
                "with --no-respect-gitignore the .gitignore files must have no influence: every gitignore spec that is consulted "
                "must come from a branch controlled by config.respect_gitignore", where(fi, c))
